@@ -61,6 +61,53 @@ def index_map(case, ctx):
                                              f"(m={want_m}, n={n}) [{kind}]")
 
 
+# --- (a2) index map far beyond the enumerated range -------------------------------------------------------
+
+def noll_closed_form(j):
+    """(n, |m|, kind) of Noll index j from the ordering's definition in integer arithmetic: row n holds the n+1
+    indices T_n+1 .. T_n+n+1 (T_n = n(n+1)/2) with |m| ascending in steps of two, two indices per |m| > 0, the even
+    index being the cosine"""
+    import math
+    n = (math.isqrt(8 * j - 7) - 1) // 2          # largest n with T_n < j
+    while n * (n + 1) // 2 >= j:
+        n -= 1
+    while (n + 1) * (n + 2) // 2 < j:
+        n += 1
+    r = j - n * (n + 1) // 2 - 1                  # position in the row, 0-based
+    am = 2 * ((r + 1) // 2) if n % 2 == 0 else 2 * (r // 2) + 1
+    kind = "0" if am == 0 else ("cos" if j % 2 == 0 else "sin")
+    return n, am, kind
+
+
+@st.composite
+def big_index_case(draw, tier):
+    n = draw(st.integers(1400, 140000))            # rows around j = 1e6 .. 1e10
+    t = n * (n + 1) // 2
+    where = draw(st.sampled_from(["first", "second", "last", "last-1", "inside", "inside"]))
+    j = {"first": t + 1, "second": t + 2, "last": t + n + 1, "last-1": t + n}.get(where) or t + 1 + draw(st.integers(0, n))
+    return {"j": j, "where": where}
+
+
+@hyp("C11", "index_large", lambda tier: big_index_case(tier),
+     "zernike_index(j) for j in 1e6..1e10 (first / second / last indices of a row and drawn interior ones) vs the "
+     "ordering's definition in integer arithmetic", examples=(80, 300), budget_s=(60, 400))
+def index_large(case, ctx):
+    j = case["j"]
+    n, am, kind = noll_closed_form(j)
+    # the closed form is itself checked against the enumerated ordering on a small prefix
+    for jj, nn, aa, kk in _seq(20000)[:300]:
+        if noll_closed_form(jj) != (nn, aa, kk):
+            raise Violation("C11.ref", f"closed-form Noll ordering disagrees with the enumerated one at j={jj}")
+    ctx.tag("where:" + case["where"], f"j~1e{len(str(j)) - 1}")
+    ctx.nontrivial_if(True)
+    with lentil_call("C11.index", f"zernike_index({j})"):
+        m_l, n_l = lz.zernike_index(j)
+    want_m = am if kind in ("0", "cos") else -am
+    if (int(m_l), int(n_l)) != (want_m, n):
+        raise Violation("C11.index.map_large", f"zernike_index({j}) = (m={m_l}, n={n_l}), Noll's ordering gives "
+                                               f"(m={want_m}, n={n}) [{kind}]")
+
+
 # --- (b) values -------------------------------------------------------------------------
 
 @st.composite
